@@ -16,10 +16,19 @@ import (
 	"golang.org/x/tools/go/ssa/ssautil"
 )
 
-const (
-	RepoDir  = "/repo"
-	VerifDir = "/verif"
+// RepoDir is the tree under check (SSE_REPO overrides it for background runs on a snapshot);
+// VerifDir is where harnesses, shims, known findings and evidence live (SSE_VERIF overrides).
+var (
+	RepoDir  = envOr("SSE_REPO", "/repo")
+	VerifDir = envOr("SSE_VERIF", "/verif")
 )
+
+func envOr(k, d string) string {
+	if v := os.Getenv(k); v != "" {
+		return v
+	}
+	return d
+}
 
 // harnessDirs maps a directory under /verif/harness to the package directory in /repo.
 var harnessDirs = map[string]string{
